@@ -96,7 +96,7 @@ package datatransfer
 //@ interface Response
 //@   pure IsValidationResult, IsComplete, Accepted, VoucherResultType, VoucherResult, EmptyVoucherResult
 
-//@ func (datatransfer.ValidationResult).LeaveRequestPaused {C08,C11}
+//@ func (datatransfer.ValidationResult).LeaveRequestPaused {C08,C11,C03}
 //@   pure
 //@   requires [snapshot] chst != nil
 //@   ensures [resume-rule] result == (vr.ForcePause ||
